@@ -27,6 +27,10 @@ def main():
         print(r.stdout)
         sys.exit(2)
     out = {"worktree_of": sh("git -C /repo rev-parse HEAD").stdout.strip(), "checks": {}}
+    saved = {}
+    for p in props:
+        path = os.path.join(ROOT, "evidence", p + ".json")
+        saved[p] = open(path).read() if os.path.exists(path) else None
     try:
         r = sh("git -C %s apply %s/patch.diff" % (wt, d))
         if r.returncode != 0:
@@ -49,8 +53,15 @@ def main():
         sh("git -C /repo worktree remove --force %s" % wt)
         sh("rm -rf %s/work/harness_alt" % ROOT)
     json.dump(out, open(os.path.join(d, "checks_result.json"), "w"), indent=1)
-    # evidence files were rewritten by these runs against the seeded tree: restore committed ones
-    sh("git -C %s checkout -- evidence" % ROOT)
+    # evidence files of the checked properties were rewritten against the seeded tree: put
+    # back what was there before (only those files; other work may be rewriting the rest)
+    for p, content in saved.items():
+        path = os.path.join(ROOT, "evidence", p + ".json")
+        if content is None:
+            if os.path.exists(path):
+                os.remove(path)
+        else:
+            open(path, "w").write(content)
 
 
 if __name__ == "__main__":
